@@ -206,6 +206,10 @@ func Raw(n ast.Node) (a, b, l int) {
 		return int(n.While), 0, 0
 	case *ast.WithStatement:
 		return int(n.With), 0, 0
+	case *ast.Program:
+		if n.File != nil {
+			return n.File.Base(), 0, 0 // what Idx0/Idx1 report for an empty program
+		}
 	}
 	return 0, 0, 0
 }
